@@ -265,7 +265,22 @@ func (e *Engine) evalBuiltin(name string, cx *ast.CallExpr, st *State) Value {
 			unsup("append to %T", v)
 		}
 		if cx.Ellipsis != token.NoPos {
-			unsup("append with spread at %s", e.src(cx))
+			// append(a, b...): a fresh slice holding a followed by b
+			if len(cx.Args) != 2 {
+				unsup("append with spread at %s", e.src(cx))
+			}
+			bv, ok := e.eval(cx.Args[1], st).(VSlice)
+			if !ok || sl.Arr == nil || bv.Arr == nil {
+				unsup("append with spread of %T at %s", bv, e.src(cx))
+			}
+			r := e.fresh("appended", sl.Arr.Sort)
+			e.nfresh++
+			i := mkVar(fmt.Sprintf("i$%d", e.nfresh), SInt)
+			st.assume(mkForall([]*Term{i}, mkImplies(mkAnd(mkCmp("<=", mkInt(0), i), mkCmp("<", i, sl.Len)), mkEq(mkSelect(r, i), mkSelect(sl.Arr, i))), [][]*Term{{mkSelect(r, i)}}))
+			e.nfresh++
+			j := mkVar(fmt.Sprintf("j$%d", e.nfresh), SInt)
+			st.assume(mkForall([]*Term{j}, mkImplies(mkAnd(mkCmp("<=", mkInt(0), j), mkCmp("<", j, bv.Len)), mkEq(mkSelect(r, mkArith("+", sl.Len, j)), mkSelect(bv.Arr, j))), [][]*Term{{mkSelect(bv.Arr, j)}}))
+			return VSlice{Arr: r, Len: mkArith("+", sl.Len, bv.Len), Elem: sl.Elem}
 		}
 		for _, a := range cx.Args[1:] {
 			av := e.eval(a, st)
